@@ -23,19 +23,6 @@ theorem ext_alloc_two (hp : Heap) (n1 n2 : Nat) :
   · rw [Heap.ext_alloc, if_neg (by omega), Heap.ext_alloc, if_neg (by omega)]
   · rw [Heap.size_alloc, e1]
 
-/-- one iteration of the loop of `computeR` -/
-theorem computeR_body_safe (self : NTT_Goldilocks) (dp : BitVec 64) (N i : Nat) (st : Heap) (hi1 : 1 ≤ i) (hi : i < N)
-    (hr : self.r.off + N ≤ st.ext self.r.blk) (hr_ : self.r_.off + N ≤ st.ext self.r_.blk)
-    (hpti : self.powTwoInv.off + dp.toNat < st.ext self.powTwoInv.blk) :
-    NTT_computeR_loop1.Safe self dp i st := by
-  unfold NTT_computeR_loop1.Safe
-  zeta_goal
-  have i1 : st.InB self.r (i - 1) := InB_base (by omega)
-  have i2 : st.InB self.r i := InB_base (by omega)
-  have i3 : st.InB self.powTwoInv dp.toNat := InB_base hpti
-  have i4 : st.InB self.r_ i := InB_base (by omega)
-  exact ⟨i1, i2, ⟨i2.same (Heap.Same.set _ _ _ _), i3.same (Heap.Same.set _ _ _ _)⟩, i4.same (Heap.Same.set _ _ _ _)⟩
-
 /-- **in-bounds accesses of `computeR(N)`**, 1 ≤ N < 2^31 (an `int`), on an object whose `powTwoInv` table has the s + 1
     words the constructor gave it, log2 N ≤ s -/
 theorem computeR_safe (fuel : Nat) (hf : 64 ≤ fuel) (hp : Heap) (self : NTT_Goldilocks) (N : Nat)
@@ -62,17 +49,28 @@ theorem computeR_safe (fuel : Nat) (hf : 64 ≤ fuel) (hp : Heap) (self : NTT_Go
   have hb2 : ((hp.alloc N).1.alloc N).2 = ⟨hp.size + 1, 0⟩ := by
     rw [Heap.alloc_snd, Heap.size_alloc]
   rw [hb1, hb2]
-  have i1 : ((hp.alloc N).1.alloc N).1.InB ⟨hp.size, 0⟩ 0 := InB_base (by show 0 + 0 < _; rw [x1]; omega)
-  have i2 : ((hp.alloc N).1.alloc N).1.InB self.powTwoInv (Model.Ntt.log2 N) := InB_base (by rw [x3 _ hpl]; omega)
-  have i3 : ((hp.alloc N).1.alloc N).1.InB ⟨hp.size + 1, 0⟩ 0 := InB_base (by show 0 + 0 < _; rw [x2]; omega)
-  refine ⟨i1, ⟨i2.same (Heap.Same.set _ _ _ _), i3.same (Heap.Same.set _ _ _ _)⟩, ?_⟩
-  refine Loop.RangeAll.of_same (fun i s _ => computeR_loop1_same _ _ i s) (fun i st hi1 hi hst => ?_)
-  have hs2 : Heap.Same ((hp.alloc N).1.alloc N).1 st :=
-    ((Heap.Same.set _ _ _ _).trans (Heap.Same.set _ _ _ _)).trans hst
-  refine computeR_body_safe _ _ N i st hi1 hi ?_ ?_ ?_
-  · show 0 + N ≤ st.ext hp.size; rw [hs2.2, x1]; omega
-  · show 0 + N ≤ st.ext (hp.size + 1); rw [hs2.2, x2]; omega
-  · show self.powTwoInv.off + _ < st.ext self.powTwoInv.blk
-    rw [hdp, hs2.2, x3 _ hpl]; omega
+  -- every access is `r[j]`, `r_[j]` (j < N: the two new blocks of N words) or `powTwoInv[log2 N]`; the accesses in front of
+  -- the loop and in its body are taken as they come (a table entry read once into a local, or in every iteration)
+  have hlN : Model.Ntt.log2 N ≤ self.s.toNat := hlog
+  have close : ∀ (st : Heap), (∀ b, st.ext b = ((hp.alloc N).1.alloc N).1.ext b) → ∀ (p : Ptr) (j : Nat),
+      ((p = ⟨hp.size, 0⟩ ∨ p = ⟨hp.size + 1, 0⟩) ∧ j < N) ∨ (p = self.powTwoInv ∧ j = Model.Ntt.log2 N) → st.InB p j := by
+    intro st hst p j h
+    unfold Heap.InB
+    rw [hst]
+    rcases h with ⟨rfl | rfl, hj⟩ | ⟨rfl, rfl⟩
+    · show 0 + j < _; rw [x1]; omega
+    · show 0 + j < _; rw [x2]; omega
+    · rw [x3 _ hpl]; omega
+  repeat' apply And.intro
+  all_goals first
+    | (refine close _ (fun b => by simp only [Heap.ext_set]) _ _ ?_
+       first | exact Or.inl ⟨Or.inl rfl, by omega⟩ | exact Or.inl ⟨Or.inr rfl, by omega⟩ | exact Or.inr ⟨rfl, by first | rfl | exact hdp⟩)
+    | (refine Loop.RangeAll.of_same (fun i s _ => by loop_same) (fun i st hi1 hi hst => ?_)
+       unfold_loops
+       zeta_goal
+       repeat' apply And.intro
+       all_goals (
+         refine close _ (fun b => by simp only [Heap.ext_set, hst.2]) _ _ ?_
+         first | exact Or.inl ⟨Or.inl rfl, by omega⟩ | exact Or.inl ⟨Or.inr rfl, by omega⟩ | exact Or.inr ⟨rfl, by first | rfl | exact hdp⟩))
 
 end GoldilocksVerif.HeapSafe
